@@ -1,9 +1,14 @@
 #!/usr/bin/env bash
-# tools/mutant.sh <id> <file-in-repo> <python-regex> <replacement> [count]  : apply a one-off source mutation to /repo, run the quick check, restore.
+# tools/mutant.sh <id> <file-in-repo> <python-regex> <replacement> [count]
+# Applies a one-off source mutation to a scratch worktree of /repo's HEAD and runs the quick check (TIER=thorough for the other
+# tier) against it; /repo and the committed evidence are not touched.
 set -u
-ID="$1"; F="/repo/$2"; PAT="$3"; REP="$4"; CNT="${5:-1}"
-cd /repo && git diff --quiet || { echo "repo dirty"; exit 2; }
-python3 - "$F" "$PAT" "$REP" "$CNT" <<'PY'
+ID="$1"; REL="$2"; PAT="$3"; REP="$4"; CNT="${5:-1}"
+V="$(cd "$(dirname "${BASH_SOURCE[0]}")/.." && pwd)"
+WT=$(mktemp -d /tmp/mu-XXXXXX); OUT=$(mktemp -d /tmp/muo-XXXXXX)
+trap 'git -C /repo worktree remove --force "$WT/r" 2>/dev/null; rm -rf "$WT" "$OUT"' EXIT
+git -C /repo worktree add -q --detach "$WT/r" HEAD || { echo "worktree failed"; exit 2; }
+python3 - "$WT/r/$REL" "$PAT" "$REP" "$CNT" <<'PY'
 import re,sys
 f,pat,rep,cnt=sys.argv[1:5]
 s=open(f).read()
@@ -12,6 +17,5 @@ if k==0: print("PATTERN NOT FOUND"); sys.exit(1)
 open(f,'w').write(n)
 PY
 [ $? -eq 0 ] || exit 2
-git -C /repo diff --stat | tail -1
-cd /verif && VERIF_EVIDENCE=/tmp/mutant-evidence.json ./run.sh "$ID" quick | grep -E '^(VIOLATION|SUMMARY|INCONCLUSIVE|KNOWN|  signature)' | sort | uniq -c | sort -rn | head -12
-git -C /repo checkout -- . 
+git -C "$WT/r" diff --stat | tail -1
+cd "$V" && VERIF_REPO="$WT/r" VERIF_OUT="$OUT" ./run.sh "$ID" "${TIER:-quick}" | grep -E '^(VIOLATION|SUMMARY|INCONCLUSIVE|KNOWN|  signature)' | sed -E 's/replay=.*//' | sort | uniq -c | sort -rn | head -12
